@@ -70,6 +70,8 @@ add(H("REPLAY", "m_replay_at_date", "verif_k::c10::m_replay_at_date", "", kani=F
 add(H("REPLAY", "m_replay_nested", "verif_k::c02::m_replay_nested", "", kani=False))
 add(H("REPLAY", "m_replay_number_print_margin", "verif_k::c10::m_replay_number_print_margin", "", kani=False))
 add(H("REPLAY", "m_replay_variable_operand", "verif_k::c10::m_replay_variable_operand", "", kani=False))
+add(H("REPLAY", "m_replay_time_print", "verif_k::c10::m_replay_time_print", "", kani=False))
+add(H("REPLAY", "m_replay_date_print", "verif_k::c10::m_replay_date_print", "", kani=False))
 add(H("REPLAY", "d_dump_units", "verif_k::c12::d_dump_units", "", kani=False))
 add(H("REPLAY", "k_replay_set_text_lines", "verif_k::c04::k_replay_set_text_lines", "", kani=False))
 add(H("REPLAY", "k_replay_update_currency", "verif_k::c04::k_replay_update_currency", "", kani=False))
